@@ -93,13 +93,13 @@ def extract_tables() -> Dict[str, Any]:
         f = find_func(ev.body, "macro_" + m)
         src = ast.unparse(f)
         ret = [n for n in ast.walk(f) if isinstance(n, ast.Return)]
-        helpers[m] = {"body_in_result": "result(act, cel_expr)" in src,
+        helpers[m] = {"body_in_result": bool(re.search(r"\bresult\(\w+, \w+\) for \w+ in", src)),
                       "reducer_catches_TypeError": "eval_error('no such overload', TypeError)" in src,
                       "coerces_BoolType": any(isinstance(r.value, ast.Call) and ast.unparse(r.value.func) == "celpy.celtypes.BoolType" for r in ret)}
     out["macro_helpers"] = helpers
     # has(): interpreter and template
     out["has_template_pybool"] = "not isinstance(celpy.evaluation.result(activation, ex_${n}_h), CELEvalError)" in ast.unparse(find_func(P1.body, "ident_arg"))
-    out["has_interp_booltype"] = "celpy.celtypes.BoolType(not isinstance(has_values[0], CELEvalError))" in ast.unparse(find_func(E.body, "macro_has_eval"))
+    out["has_interp_booltype"] = bool(re.search(r"celpy\.celtypes\.BoolType\(not isinstance\(\w+\[0\], CELEvalError\)\)", ast.unparse(find_func(E.body, "macro_has_eval"))))
     # base_functions keys
     bf = None
     for n in ev.body:
@@ -116,8 +116,8 @@ def extract_tables() -> Dict[str, Any]:
     def checks_error(fn: ast.FunctionDef) -> bool:
         return "isinstance" in ast.unparse(fn) and "CELEvalError" in ast.unparse(fn)
     out["arg_error_check"] = {r: checks_error(find_func(E.body, r)) for r in ("function_eval", "method_eval", "exprlist", "mapinits", "member_dot")}
-    out["macro_receiver_error_check"] = "isinstance(member_list, CELEvalError)" in ast.unparse(mda)
-    out["macro_receiver_iterable_check"] = bool(re.search(r"not isinstance\(member_list,\s*(typing\.)?(collections\.abc\.)?Iterable\)", ast.unparse(mda)))
+    out["macro_receiver_error_check"] = bool(re.search(r"if isinstance\(\w+, CELEvalError\):\s*return \w+", ast.unparse(mda)))
+    out["macro_receiver_iterable_check"] = bool(re.search(r"not isinstance\(\w+,\s*(typing\.)?(collections\.abc\.)?Iterable\)", ast.unparse(mda)))
     return out
 
 
